@@ -127,6 +127,17 @@ func (u *Unsupported) Error() string { return "unsupported: " + u.Msg }
 // ToDatum is the abstraction function. omit says whether the value sits in
 // an omitempty field.
 func ToDatum(s *ref.Schema, v reflect.Value, omit bool) (ref.Datum, error) {
+	return toDatum(s, v, omit, true)
+}
+
+// ToDatumEmptyNonNull is the other admissible reading of "a zero omitempty
+// field is written as null": a non-nil but empty slice or map is not the zero
+// value, so it may also be written as the non-null branch. Checks accept either.
+func ToDatumEmptyNonNull(s *ref.Schema, v reflect.Value, omit bool) (ref.Datum, error) {
+	return toDatum(s, v, omit, false)
+}
+
+func toDatum(s *ref.Schema, v reflect.Value, omit bool, emptyIsNull bool) (ref.Datum, error) {
 	t := v.Type()
 	if ni, oi, ok := nullBranch(s); ok {
 		other := s.Branches[oi]
@@ -154,13 +165,13 @@ func ToDatum(s *ref.Schema, v reflect.Value, omit bool) (ref.Datum, error) {
 		default:
 			isNull = omit && v.IsZero()
 			if omit && (t.Kind() == reflect.Slice || t.Kind() == reflect.Map) && v.Len() == 0 {
-				isNull = true
+				isNull = emptyIsNull || v.IsNil()
 			}
 		}
 		if isNull {
 			return ref.DUnion(ni, ref.DNull()), nil
 		}
-		d, err := ToDatum(other, inner, false)
+		d, err := toDatum(other, inner, false, emptyIsNull)
 		if err != nil {
 			return ref.Datum{}, err
 		}
@@ -180,7 +191,7 @@ func ToDatum(s *ref.Schema, v reflect.Value, omit bool) (ref.Datum, error) {
 			}
 			return ref.Datum{}, &Unsupported{"nil pointer under non-nullable schema " + s.Type}
 		}
-		return ToDatum(s, v.Elem(), false)
+		return toDatum(s, v.Elem(), false, emptyIsNull)
 	}
 	switch s.Type {
 	case "null":
@@ -265,7 +276,7 @@ func ToDatum(s *ref.Schema, v reflect.Value, omit bool) (ref.Datum, error) {
 		if t.Kind() == reflect.Slice {
 			out := ref.DArray()
 			for i := 0; i < v.Len(); i++ {
-				d, err := ToDatum(s.Items, v.Index(i), false)
+				d, err := toDatum(s.Items, v.Index(i), false, emptyIsNull)
 				if err != nil {
 					return ref.Datum{}, err
 				}
@@ -279,7 +290,7 @@ func ToDatum(s *ref.Schema, v reflect.Value, omit bool) (ref.Datum, error) {
 			keys := v.MapKeys()
 			sort.Slice(keys, func(i, j int) bool { return keys[i].String() < keys[j].String() })
 			for _, k := range keys {
-				d, err := ToDatum(s.Values, v.MapIndex(k), false)
+				d, err := toDatum(s.Values, v.MapIndex(k), false, emptyIsNull)
 				if err != nil {
 					return ref.Datum{}, err
 				}
@@ -296,7 +307,7 @@ func ToDatum(s *ref.Schema, v reflect.Value, omit bool) (ref.Datum, error) {
 				if !ok {
 					return ref.Datum{}, &Unsupported{"struct does not cover field " + f.Name}
 				}
-				d, err := ToDatum(f.Type, Accessible(v.FieldByIndex(sf.Index)), OmitEmpty(sf))
+				d, err := toDatum(f.Type, Accessible(v.FieldByIndex(sf.Index)), OmitEmpty(sf), emptyIsNull)
 				if err != nil {
 					return ref.Datum{}, err
 				}
@@ -485,6 +496,207 @@ func Expect(s *ref.Schema, d ref.Datum, dst reflect.Value) error {
 // offset; NaN equals NaN; an invalid null.* wrapper equals any other invalid
 // one. It returns "" or the path of the first difference.
 func Equal(a, b reflect.Value) string { return equal(a, b, "") }
+
+// DiffLocus returns the path of the first difference, the (at most two)
+// innermost type constructors on the way to it, e.g. "slice>int16", and the
+// class of the value a (the expected one) at the outer of those constructors.
+func DiffLocus(a, b reflect.Value) (path, locus, vclass string) {
+	path = equal(a, b, "")
+	if path == "" {
+		return "", "", ""
+	}
+	t := a.Type()
+	v := a
+	var chain []string
+	var vals []reflect.Value
+	p := path
+	if i := strings.Index(p, ": "); i >= 0 {
+		p = p[:i]
+	}
+	push := func() {
+		chain = append(chain, KindName(t))
+		vals = append(vals, v)
+	}
+	for len(p) > 0 && t != nil {
+		push()
+		switch {
+		case p[0] == '*':
+			if t.Kind() == reflect.Ptr {
+				t = t.Elem()
+				if v.IsValid() && !v.IsNil() {
+					v = v.Elem()
+				} else {
+					v = reflect.Value{}
+				}
+			}
+			p = p[1:]
+		case p[0] == '[':
+			j := strings.IndexByte(p, ']')
+			if j < 0 {
+				p = ""
+				break
+			}
+			key := p[1:j]
+			if t.Kind() == reflect.Slice || t.Kind() == reflect.Array || t.Kind() == reflect.Map {
+				nv := reflect.Value{}
+				if v.IsValid() {
+					switch t.Kind() {
+					case reflect.Map:
+						for _, k := range v.MapKeys() {
+							if fmt.Sprint(k) == key {
+								nv = v.MapIndex(k)
+							}
+						}
+					default:
+						var idx int
+						if _, err := fmt.Sscanf(key, "%d", &idx); err == nil && idx < v.Len() {
+							nv = v.Index(idx)
+						}
+					}
+				}
+				v = nv
+				t = t.Elem()
+			}
+			p = p[j+1:]
+		case p[0] == '.':
+			j := 1
+			for j < len(p) && p[j] != '.' && p[j] != '[' && p[j] != '*' {
+				j++
+			}
+			name := p[1:j]
+			if t.Kind() == reflect.Struct {
+				if f, ok := t.FieldByName(name); ok {
+					t = f.Type
+					if v.IsValid() {
+						v = Accessible(v.FieldByIndex(f.Index))
+					}
+				} else {
+					t = nil
+				}
+			} else {
+				t = nil
+			}
+			p = p[j:]
+		default:
+			p = ""
+		}
+	}
+	if t != nil {
+		push()
+	}
+	if len(chain) > 2 {
+		chain = chain[len(chain)-2:]
+		vals = vals[len(vals)-2:]
+	}
+	vclass = "?"
+	if len(vals) > 0 && vals[0].IsValid() {
+		vclass = ValueClass(vals[0])
+	}
+	return path, strings.Join(chain, ">"), vclass
+}
+
+// KindName names a type constructor for loci.
+func KindName(t reflect.Type) string {
+	switch {
+	case t == TimeT:
+		return "time.Time"
+	case IsNullWrapper(t):
+		return "null.*"
+	}
+	switch t.Kind() {
+	case reflect.Ptr:
+		return "ptr"
+	case reflect.Slice:
+		if t.Elem().Kind() == reflect.Uint8 {
+			return "bytes"
+		}
+		return "slice"
+	case reflect.Map:
+		return "map"
+	case reflect.Struct:
+		return "struct"
+	case reflect.Array:
+		return "array"
+	}
+	return t.Kind().String()
+}
+
+// ValueClass abstracts a value for signatures.
+func ValueClass(v reflect.Value) string {
+	v = Accessible(v)
+	t := v.Type()
+	switch {
+	case t == TimeT:
+		tm := v.Interface().(time.Time)
+		_, off := tm.Zone()
+		switch {
+		case tm.IsZero():
+			return "zero-time"
+		case off != 0:
+			return "offset-time"
+		case tm.Unix() < 0:
+			return "pre-1970"
+		}
+		return "utc-time"
+	case IsNullWrapper(t):
+		if !v.FieldByName("Valid").Bool() {
+			return "invalid"
+		}
+		return "valid:" + ValueClass(Payload(v))
+	}
+	switch t.Kind() {
+	case reflect.Ptr:
+		if v.IsNil() {
+			return "nil"
+		}
+		return "&" + ValueClass(v.Elem())
+	case reflect.Slice, reflect.Map:
+		if v.IsNil() {
+			return "nil"
+		}
+		if v.Len() == 0 {
+			return "empty"
+		}
+		return fmt.Sprintf("len%d", min(v.Len(), 3))
+	case reflect.String:
+		if v.Len() == 0 {
+			return "empty"
+		}
+		return "nonempty"
+	case reflect.Bool:
+		return fmt.Sprint(v.Bool())
+	case reflect.Int, reflect.Int8, reflect.Int16, reflect.Int32, reflect.Int64:
+		switch {
+		case v.Int() == 0:
+			return "zero"
+		case v.Int() < 0:
+			return "negative"
+		}
+		return "positive"
+	case reflect.Float32, reflect.Float64:
+		f := v.Float()
+		switch {
+		case f != f:
+			return "nan"
+		case f == 0 && math.Signbit(f):
+			return "negzero"
+		case f == 0:
+			return "zero"
+		case math.IsInf(f, 0):
+			return "inf"
+		}
+		return "finite"
+	case reflect.Struct:
+		if v.IsZero() {
+			return "zero-struct"
+		}
+		if t.NumField() == 1 {
+			return "{" + ValueClass(v.Field(0)) + "}"
+		}
+		return "struct"
+	}
+	return t.Kind().String()
+}
 
 func equal(a, b reflect.Value, path string) string {
 	if a.Type() != b.Type() {
